@@ -31,7 +31,7 @@ def desc_bytes(desc):
             n[0] += len(blocks)
             return out
         m = {"version": desc["version"], "decls": desc["decls"], "mats": desc["mats"], "lods": desc["lods"],
-             "stream": desc["stream"], "edge": desc["edge"]}
+             "stream": desc["stream"], "edge": desc["edge"], "storage_order": desc.get("_storage_order")}
         m["stack"] = sec(desc["stack"])
         m["runtime"] = sec(desc["runtime"])
         m["vertex"], m["index"] = [None] * 3, [None] * 3
